@@ -48,7 +48,7 @@ typedef unsigned long long ull;
 
 enum { CL_ARENA = 0, CL_HEAP = 1, CL_VM = 2, CL_N = 3 };
 static const char* kClassNames[CL_N] = { "arena", "heap", "vm" };
-enum { M_COUNT = 0, M_SINGLE = 1, M_STICKY = 2, M_PATTERN = 3 };
+enum { M_COUNT = 0, M_SINGLE = 1, M_STICKY = 2, M_PATTERN = 3, M_TWIN = 4 };   // twin: request k and the next request from the same call site
 
 static constexpr int kSiteDepth = 12;
 struct Site { uintptr_t pc[kSiteDepth]; uint64_t count; uint64_t first_k; uint8_t cls; uint8_t used; uint8_t failed; };
@@ -89,6 +89,7 @@ struct FaultCtl {
   uint64_t fired = 0;
   uintptr_t first_site[kSiteDepth] {};
   uint64_t cur_case = 0;
+  void* twin_site = nullptr; int twin_left = 0;
   bool memfd_enosys = false;   // environment variation: pretend memfd_create() does not exist (old kernel)
 };
 static FaultCtl F;
@@ -131,7 +132,7 @@ static void record_site(int cls, const uintptr_t* pc, bool failed, uint64_t k) {
 }
 
 // The single decision point of all three fault classes.
-static inline bool fault_point(int cls, void** fp) {
+static inline bool fault_point(int cls, void** fp, void* caller) {
   if (!F.in_api || !F.counting) return false;
   uint64_t n = ++F.seen[cls];
   if (F.record_requests) { uintptr_t pc[kSiteDepth]; walk_frames(fp, pc); record_site(cls, pc, false, n); }
@@ -141,6 +142,10 @@ static inline bool fault_point(int cls, void** fp) {
     case M_SINGLE: fail = (n == F.k); break;
     case M_STICKY: fail = (n >= F.k); break;
     case M_PATTERN: for (int i = 0; i < F.npat; i++) if (F.pat[i] == n) fail = true; break;
+    case M_TWIN:
+      if (n == F.k) { fail = true; F.twin_site = caller; F.twin_left = 1; }
+      else if (n > F.k && F.twin_left && caller == F.twin_site) { fail = true; F.twin_left = 0; }
+      break;
     default: break;
   }
   if (fail) {
@@ -158,7 +163,7 @@ static inline bool fault_point(int cls, void** fp) {
   return fail;
 }
 
-#define FAULT(cls) fault_point(cls, (void**)__builtin_frame_address(0))
+#define FAULT(cls) fault_point(cls, (void**)__builtin_frame_address(0), __builtin_return_address(0))
 
 // ---- class arena: hook H1 -------------------------------------------------------------------------------
 static bool __attribute__((noinline)) arena_fail_hook(size_t) { return FAULT(CL_ARENA); }
@@ -331,7 +336,8 @@ public:
 
 struct Result {
   std::string main;   // compared with the failure-free run whenever nothing was reported
-  std::string aux;    // best-effort text (logs): compared in the retry only
+  std::string aux;    // best-effort text (logs) and implementation-defined choices: compared in the retry only
+  std::string image;  // hex of the last flattened image (diagnostics: lets the Python side compare two images structurally)
   void put(const char* tag, const void* p, size_t n) { main += tag; main += '='; main += hexstr(p, n); main += ';'; }
   void num(const char* tag, uint64_t v) { char b[64]; snprintf(b, sizeof b, "%s=%llu;", tag, (ull)v); main += b; }
 };
@@ -461,28 +467,30 @@ struct W5 : Workload {
     // -- ConstPool --------------------------------------------------------------------------------------
     ConstPool& cp = *cpool;
     {
+      // Oracle for the pool is semantic (every returned offset is aligned and holds the constant after fill()):
+      // ConstPool ignores allocation failures of its gap bookkeeping on purpose, which changes offsets, not correctness.
+      // The exact layout goes to `aux` (must be reproduced exactly by the retry).
+      struct Added { uint8_t data[64]; size_t size, off; };
+      std::vector<Added> added;
       uint8_t data[64];
       static const uint8_t sizes[] = { 1, 8, 2, 16, 4, 32, 1, 64, 8, 8, 4, 2, 16, 32, 1, 4, 64, 16, 8, 2 };
       uint32_t nadd = 60 + uint32_t(r.below(30));
-      for (uint32_t i = 0; i < nadd; i++) {
-        size_t sz = sizes[i % sizeof(sizes)];
-        for (size_t j = 0; j < 64; j++) data[j] = uint8_t((i % 9) * 17 + (j / 4) * 3 + (i & 1 ? j : 0));
+      for (uint32_t i = 0; i < nadd + 8; i++) {
+        size_t sz = i < nadd ? sizes[i % sizeof(sizes)] : 8;
+        const uint8_t* src = data;
+        if (i < nadd) for (size_t j = 0; j < 64; j++) data[j] = uint8_t((i % 9) * 17 + (j / 4) * 3 + (i & 1 ? j : 0));
+        else { for (size_t j = 0; j < 64; j++) data[j] = uint8_t(((i - nadd) % 9) * 17 + (j / 4) * 3); src = data + 32; }   // exists as a shared sub-constant
         size_t off = ~size_t(0);
-        Error e = cp.add(data, sz, Out(off));
+        Error e = cp.add(src, sz, Out(off));
         R.rec(e); CHK();
-        if (e == Error::kOk) { char b[40]; snprintf(b, sizeof b, "c%u@%zu;", i, off); out.main += b; }
-      }
-      // constants that already exist as shared sub-constants of a larger one
-      for (uint32_t i = 0; i < 8; i++) {
-        for (size_t j = 0; j < 64; j++) data[j] = uint8_t((i % 9) * 17 + (j / 4) * 3);
-        size_t off = ~size_t(0);
-        Error e = cp.add(data + 32, 8, Out(off));
-        R.rec(e); CHK();
-        if (e == Error::kOk) out.num("sub", off);
+        if (e == Error::kOk) { Added a; memcpy(a.data, src, sz); a.size = sz; a.off = off; added.push_back(a); char b[40]; snprintf(b, sizeof b, "c%u@%zu;", i, off); out.aux += b; }
       }
       std::string img(cp.size() + 8, '\xEE');
       cp.fill(&img[0]);
-      out.put("cpool", img.data(), cp.size()); out.num("cpalign", cp.alignment());
+      uint32_t bad = 0;
+      for (auto& a : added) if (a.off % a.size != 0 || a.off + a.size > cp.size() || memcmp(img.data() + a.off, a.data, a.size) != 0) bad++;
+      out.num("cpool_added", added.size()); out.num("cpool_bad", bad); out.num("cpalign", cp.alignment());
+      out.aux += "cpool=" + hexstr(img.data(), cp.size()) + ";";
     }
   }
 
@@ -643,14 +651,15 @@ struct Labels { std::vector<std::pair<std::string, Label>> all; void add(const c
 // What a caller does after generation: flatten, resolve, relocate, copy. Output = image + label / section placement.
 static void finish_image(CodeHolder& code, Rec& R, Result& out, const Labels& L, uint64_t base) {
   GATE();
-  E(code.flatten());
-  E(code.resolve_cross_section_fixups());
+  E(code.flatten()); GATE();
+  E(code.resolve_cross_section_fixups()); GATE();
   CodeHolder::RelocationSummary sum {};
-  E(code.relocate_to_base(base, &sum));
+  E(code.relocate_to_base(base, &sum)); GATE();
   size_t sz = code.code_size();
   std::string img(sz + 16, '\xCC');
-  E(code.copy_flattened_data(&img[0], sz, CopySectionFlags::kPadSectionBuffer | CopySectionFlags::kPadTargetBuffer));
+  E(code.copy_flattened_data(&img[0], sz, CopySectionFlags::kPadSectionBuffer | CopySectionFlags::kPadTargetBuffer)); GATE();
   out.put("image", img.data(), sz);
+  out.image = hexstr(img.data(), sz);
   out.num("reduction", sum.code_size_reduction);
   for (auto& p : L.all) {
     if (code.is_label_valid(p.second) && code.is_label_bound(p.second)) out.num(p.first.c_str(), code.label_offset_from_base(p.second));
@@ -754,8 +763,10 @@ static void x86_program(EM& e, CodeHolder& code, Rec& R, Labels& L, bool is64, u
     E(e.embed(blob, sizeof blob));
     if (cpool && l_pool.is_valid()) {
       for (uint32_t i = 0; i < 10; i++) {
-        uint8_t c[32]; for (size_t j = 0; j < 32; j++) c[j] = uint8_t(i * 16 + j / 2);
-        size_t off; E(cpool->add(c, size_t(1) << (i % 6), Out(off)));
+        // one size only: the layout then does not depend on gap bookkeeping, whose allocation failures ConstPool
+        // deliberately ignores (a different but valid layout would be "completes correctly", not comparable bytewise)
+        uint8_t c[8]; for (size_t j = 0; j < 8; j++) c[j] = uint8_t(i * 16 + j);
+        size_t off; E(cpool->add(c, 8, Out(off)));
       }
       E(e.embed_const_pool(l_pool, *cpool));
     }
@@ -1000,7 +1011,7 @@ static void x86_functions(x86::Compiler& cc, Rec& R, Labels& L, bool is64, uint6
       std::vector<x86::Gp> v;
       for (uint32_t i = 0; i < nregs; i++) { x86::Gp g = cc.new_gp32("v%u", i); if (okreg(g, R)) v.push_back(g); CHK(); }
       for (size_t i = 0; i < v.size(); i++) E(cc.mov(v[i], int(i * 3 + 1)));
-      x86::Mem stk = cc.new_stack(64, 16, "slot");
+      x86::Mem stk = cc.new_stack(16, 16, "slot");
       if (stk.is_none()) { R.null_result(); CHK(); }
       Label loop = cc.new_label(), done = cc.new_label();
       if (!loop.is_valid() || !done.is_valid()) { R.null_result(); CHK(); }
@@ -1016,6 +1027,21 @@ static void x86_functions(x86::Compiler& cc, Rec& R, Labels& L, bool is64, uint6
       if (okreg(sum, R)) {
         E(cc.xor_(sum, sum));
         for (size_t i = 0; i < v.size(); i++) E(cc.add(sum, v[i]));
+        E(cc.ret(sum));
+      }
+      E(cc.end_func());
+    }
+  }
+  // ---- f1v: vector register pressure (own function: frames stay below 128 bytes, so that a different order of spill
+  //      slots never changes an instruction length and the structural comparison of two images stays exact) -----------
+  {
+    FuncNode* fn = cc.add_func(FuncSignature::build<int, int>());
+    if (!fn) { R.null_result(); CHK(); }
+    else {
+      L.add("f1v", fn->label());
+      x86::Gp sum = cc.new_gp32("vsum");
+      if (okreg(sum, R)) {
+        fn->set_arg(0, sum);
         std::vector<x86::Vec> x;
         for (uint32_t i = 0; i < (is64 ? 19u : 10u); i++) { x86::Vec q = cc.new_xmm("x%u", i); if (okreg(q, R)) x.push_back(q); CHK(); }
         for (size_t i = 0; i < x.size(); i++) { E(cc.movd(x[i], sum)); E(cc.paddd(x[i], x[i])); }
@@ -1406,7 +1432,7 @@ struct W4 : Workload {
 
 static Workload* make_workload(const std::string& name);   // registry below
 
-struct Viol { std::string kind, what; uint64_t k; int cls; int mode; uintptr_t site[kSiteDepth]; uint64_t count; std::string pattern; };
+struct Viol { std::string got_image, clean_image; std::string kind, what; uint64_t k; int cls; int mode; uintptr_t site[kSiteDepth]; uint64_t count; std::string pattern; };
 static std::vector<Viol> g_viol;
 
 static std::string g_wname;
@@ -1414,15 +1440,17 @@ static uintptr_t g_exe_base = 0;
 
 static std::string pattern_str() {
   char b[64]; std::string s;
-  if (F.mode == M_SINGLE || F.mode == M_STICKY) { snprintf(b, sizeof b, "%llu", (ull)F.k); return b; }
+  if (F.mode == M_SINGLE || F.mode == M_STICKY || F.mode == M_TWIN) { snprintf(b, sizeof b, "%llu", (ull)F.k); return b; }
   for (int i = 0; i < F.npat; i++) { snprintf(b, sizeof b, "%s%llu", i ? "," : "", (ull)F.pat[i]); s += b; }
   return s;
 }
 
 static const char* mode_name(int m);
+static std::string g_viol_images[2];
 static void viol(const char* kind, const std::string& what) {
+  bool with_images = !g_viol_images[0].empty();
   for (auto& v : g_viol)
-    if (v.kind == kind && v.cls == F.cls && memcmp(v.site, F.first_site, sizeof v.site) == 0) { v.count++; return; }
+    if (!with_images && v.kind == kind && v.cls == F.cls && memcmp(v.site, F.first_site, sizeof v.site) == 0) { v.count++; return; }
   Viol v; v.kind = kind; v.what = what; v.k = F.k; v.cls = F.cls; v.mode = F.mode; v.count = 1; v.pattern = pattern_str();
   memcpy(v.site, F.first_site, sizeof v.site);
   g_viol.push_back(v);
@@ -1431,7 +1459,9 @@ static void viol(const char* kind, const std::string& what) {
   char b[64];
   snprintf(b, sizeof b, ",\"count\":%llu,\"site\":[", (ull)v.count); o += b;
   for (int j = 0; j < kSiteDepth; j++) { snprintf(b, sizeof b, "%s%llu", j ? "," : "", (ull)(v.site[j] ? v.site[j] - g_exe_base : 0)); o += b; }
-  o += "]}";
+  o += "]";
+  if (!g_viol_images[0].empty() && g_viol_images[0].size() + g_viol_images[1].size() < 60000) o += ",\"got_main\":" + jstr(g_viol_images[0]) + ",\"clean_main\":" + jstr(g_viol_images[1]);
+  o += "}";
   if (SH->viol_len + o.size() + 2 < sizeof SH->viol_buf) {
     if (SH->viol_len) SH->viol_buf[SH->viol_len++] = ',';
     memcpy(SH->viol_buf + SH->viol_len, o.data(), o.size()); SH->viol_len += o.size();
@@ -1460,7 +1490,7 @@ static void marker(const char* mode, int style, int strategy) {
   if (n > 0) { ssize_t w = write(2, b, size_t(n)); (void)w; }
 }
 
-static const char* mode_name(int m) { return m == M_COUNT ? "count" : m == M_SINGLE ? "single" : m == M_STICKY ? "sticky" : "pattern"; }
+static const char* mode_name(int m) { return m == M_COUNT ? "count" : m == M_SINGLE ? "single" : m == M_STICKY ? "sticky" : m == M_TWIN ? "twin" : "pattern"; }
 
 struct Deferred { Rec R1, Rr, R2; Result o1, o2; int strategy; int variant; uint64_t fired, k; int mode, npat; uint64_t pat[16]; uintptr_t site[kSiteDepth]; };
 static bool g_defer = false;      // cold mode: the armed case runs first, the failure-free reference afterwards
@@ -1478,7 +1508,11 @@ static void judge(const Deferred& d) {
     else ST.tolerated++;
   }
   if (!R1.reported() && d.o1.main != g_clean.main)
+  {
+    if (!d.o1.image.empty()) { g_viol_images[0] = d.o1.main; g_viol_images[1] = g_clean.main; }   // image + label offsets
     viol("silent-wrong-output", "no call reported an error but the output differs from the failure-free run: " + first_diff(d.o1.main, g_clean.main));
+    g_viol_images[0].clear(); g_viol_images[1].clear();
+  }
   if (d.Rr.reported()) viol("recover-failed", "reset/reinit after the failure reported error " + std::to_string(d.Rr.first_err));
   if (R2.reported()) {
     char b[200]; snprintf(b, sizeof b, "retry with memory available (recover strategy %d) reported an error: errs=%u first=%u (call %u) handler=%u nulls=%u", strategy, R2.errs, R2.first_err, R2.first_err_call, R2.handler, R2.nulls);
@@ -1498,6 +1532,7 @@ static bool run_case(Workload& W, int style_stop, int strategy) {
   Balance b0 = balance_now();
   for (int c = 0; c < CL_N; c++) F.seen[c] = 0;
   F.fired = 0; memset(F.first_site, 0, sizeof F.first_site);
+  F.twin_site = nullptr; F.twin_left = 0;
   Rec R1; R1.stop = style_stop != 0;
   Result o1;
   // phase 1
@@ -1621,7 +1656,7 @@ int main(int argc, char** argv) {
   std::string cls_s = args.str("class", "arena");
   std::string mode_s = args.str("mode", "count");
   int cls = cls_s == "arena" ? CL_ARENA : cls_s == "heap" ? CL_HEAP : cls_s == "vm" ? CL_VM : -1;
-  int mode = mode_s == "count" ? M_COUNT : mode_s == "single" ? M_SINGLE : mode_s == "sticky" ? M_STICKY : M_PATTERN;
+  int mode = mode_s == "count" ? M_COUNT : mode_s == "single" ? M_SINGLE : mode_s == "sticky" ? M_STICKY : mode_s == "twin" ? M_TWIN : M_PATTERN;
   uint64_t seed = args.u64("seed", 1);
   F.memfd_enosys = g_wname.find("nomemfd") != std::string::npos;
   if (!args.has("cold")) warm_up(F.memfd_enosys);
@@ -1661,7 +1696,7 @@ int main(int argc, char** argv) {
   struct PatCase { uint64_t pat[16]; int npat, style, strat; };
   std::vector<PatCase> pats;
   uint64_t first = 1, last = 0;
-  if (mode == M_SINGLE || mode == M_STICKY) { first = args.u64("from", 1); last = std::min<uint64_t>(args.u64("to", N), N); }
+  if (mode == M_SINGLE || mode == M_STICKY || mode == M_TWIN) { first = args.u64("from", 1); last = std::min<uint64_t>(args.u64("to", N), N); }
   else if (args.has("pat")) {   // replay of one explicit pattern
     PatCase pc {}; std::string ps = args.str("pat");
     for (size_t pos = 0; pos < ps.size() && pc.npat < 16; ) { pc.pat[pc.npat++] = strtoull(ps.c_str() + pos, nullptr, 10); size_t c = ps.find(',', pos); if (c == std::string::npos) break; pos = c + 1; }
@@ -1688,7 +1723,7 @@ int main(int argc, char** argv) {
   }
   auto one_case = [&](uint64_t i) {
     g_case_index = i;
-    if (mode == M_SINGLE || mode == M_STICKY) {
+    if (mode == M_SINGLE || mode == M_STICKY || mode == M_TWIN) {
       F.k = i;
       int style = (mode == M_STICKY) ? int(i & 1) : int(args.u64("stop", 0));
       run_case(*W, style, int((i + seed) % 3));
